@@ -13,6 +13,8 @@
 //!     H<k>   send_request / send_response whose field section has size exactly k
 //!     T<k>   send_trailers of size exactly k on the last message stream
 //!     -> one token per op: `S` | `H:ok:<payload>` | `H:err:<scope:code:variant>:<written payload|->` (same for T; `T:nostream`)
+//! roles of lim.tx: cli | cli.clone0 | cli.clone1 | cli.split | cli.clone1.split | srv | srv.split (requests through a clone of SendRequest taken
+//!     before any SETTINGS / right after S; trailers resp. response and trailers on the SEND half of split()); lim.txw: cli | cli.clone0
 //! `lim.txw cli <own> <P|-> <k>`   back-pressure: send_request (size k) is started while the peer grants NO bidirectional stream
 //!     credit, so the call parks in poll_open_bidi; the peer's SETTINGS then arrive and are processed by the driver; only then
 //!     is credit granted.  -> `ok W:ok:<payload>` | `ok W:err:<scope:code:variant>:<written|->`
@@ -538,7 +540,10 @@ fn trailers_map(k: u64) -> http::HeaderMap {
     m
 }
 
-async fn tx_srv(w: Shared, own: u64, p: Vec<u8>, ops: Vec<String>, cancel: Rc<Cell<bool>>) -> String {
+async fn tx_srv(w: Shared, var: String, own: u64, p: Vec<u8>, ops: Vec<String>, cancel: Rc<Cell<bool>>) -> String {
+    if var.contains("split") {
+        return tx_srv_split(w, own, p, ops, cancel).await;
+    }
     let mut b = h3::server::builder();
     b.send_grease(false).max_field_section_size(own);
     let mut conn: h3::server::Connection<SimConn, Bytes> = match cancellable(b.build(SimConn { world: w.clone() }), &cancel).await {
@@ -595,7 +600,68 @@ async fn tx_srv(w: Shared, own: u64, p: Vec<u8>, ops: Vec<String>, cancel: Rc<Ce
     out.join(" ")
 }
 
-async fn tx_cli(w: Shared, own: u64, p: Vec<u8>, ops: Vec<String>, cancel: Rc<Cell<bool>>) -> String {
+async fn tx_srv_split(w: Shared, own: u64, p: Vec<u8>, ops: Vec<String>, cancel: Rc<Cell<bool>>) -> String {
+    let mut b = h3::server::builder();
+    b.send_grease(false).max_field_section_size(own);
+    let mut conn: h3::server::Connection<SimConn, Bytes> = match cancellable(b.build(SimConn { world: w.clone() }), &cancel).await {
+        Some(Ok(c)) => c,
+        _ => return "build-err".into(),
+    };
+    // the request the responses belong to arrives first (before any SETTINGS of the peer)
+    ev(&w, "B0".into());
+    chunk_ev(&w, 0, &frame(1, &unhex(MIN_REQUEST)));
+    ev(&w, "0:F".into());
+    let s: SrvStream = match cancellable(conn.accept(), &cancel).await {
+        Some(Ok(Some(resolver))) => match cancellable(resolver.resolve_request(), &cancel).await {
+            Some(Ok((_r, s))) => s,
+            Some(Err(e)) => return format!("resolve-err:{}", stream_err(&e)),
+            None => return "hang".into(),
+        },
+        _ => return "accept-failed".into(),
+    };
+    // everything is sent on the SEND half of split()
+    let (mut s, recv_half) = s.split();
+    std::mem::forget(recv_half);
+    let mut out: Vec<String> = Vec::new();
+    for op in ops.iter() {
+        let before = tx_len(&w, 0);
+        match &op[..1] {
+            "S" => {
+                ev(&w, "U2".into());
+                chunk_ev(&w, 2, &p);
+                let _ = poll_once(conn.accept()).await;
+                out.push("S".into());
+            }
+            "H" => {
+                let k: u64 = op[1..].parse().unwrap();
+                let mut rb = http::Response::builder().status(200);
+                if let Some(v) = value_for(k, RESP_BASE) {
+                    rb = rb.header("x", v);
+                }
+                match cancellable(s.send_response(rb.body(()).unwrap()), &cancel).await {
+                    Some(Ok(())) => out.push(format!("H:ok:{}", tx_since(&w, 0, before))),
+                    Some(Err(e)) => out.push(format!("H:err:{}:{}", stream_err(&e), tx_since(&w, 0, before))),
+                    None => out.push("H:hang".into()),
+                }
+            }
+            "T" => {
+                let k: u64 = op[1..].parse().unwrap();
+                match cancellable(s.send_trailers(trailers_map(k)), &cancel).await {
+                    Some(Ok(())) => out.push(format!("T:ok:{}", tx_since(&w, 0, before))),
+                    Some(Err(e)) => out.push(format!("T:err:{}:{}", stream_err(&e), tx_since(&w, 0, before))),
+                    None => out.push("T:hang".into()),
+                }
+            }
+            _ => out.push("?".into()),
+        }
+    }
+    std::mem::forget(s);
+    std::mem::forget(conn);
+    out.join(" ")
+}
+
+async fn tx_cli(w: Shared, var: String, own: u64, p: Vec<u8>, ops: Vec<String>, cancel: Rc<Cell<bool>>) -> String {
+    let (clone0, clone1, split) = (var.contains("clone0"), var.contains("clone1"), var.contains("split"));
     let mut b = h3::client::builder();
     b.send_grease(false).max_field_section_size(own);
     let (mut conn, mut sr): (h3::client::Connection<SimConn, Bytes>, h3::client::SendRequest<SimOpener, Bytes>) =
@@ -604,14 +670,20 @@ async fn tx_cli(w: Shared, own: u64, p: Vec<u8>, ops: Vec<String>, cancel: Rc<Ce
             _ => return "build-err".into(),
         };
     let mut cur: Option<CliStream> = None;
+    let mut cur_send: Option<(u64, h3::client::RequestStream<SimSend<Bytes>, Bytes>)> = None;
     let mut old: Vec<CliStream> = Vec::new();
     let mut out: Vec<String> = Vec::new();
+    // the handle requests go through: the primary SendRequest, or a clone taken before any SETTINGS / right after they were stored
+    let mut via: Option<h3::client::SendRequest<SimOpener, Bytes>> = if clone0 { Some(sr.clone()) } else { None };
     for op in ops.iter() {
         match &op[..1] {
             "S" => {
                 ev(&w, "U3".into());
                 chunk_ev(&w, 3, &p);
                 let _ = poll_once(poll_fn(|cx| conn.poll_close(cx))).await;
+                if clone1 && via.is_none() {
+                    via = Some(sr.clone());
+                }
                 out.push("S".into());
             }
             "H" => {
@@ -622,7 +694,10 @@ async fn tx_cli(w: Shared, own: u64, p: Vec<u8>, ops: Vec<String>, cancel: Rc<Ce
                 }
                 // the stream this request will use is the next locally opened bidi stream
                 let known: Vec<u64> = w.lock().unwrap().streams.keys().cloned().collect();
-                let r = cancellable(sr.send_request(rb.body(()).unwrap()), &cancel).await;
+                let r = match via.as_mut() {
+                    Some(c) => cancellable(c.send_request(rb.body(()).unwrap()), &cancel).await,
+                    None => cancellable(sr.send_request(rb.body(()).unwrap()), &cancel).await,
+                };
                 let newid: Option<u64> = {
                     let g = w.lock().unwrap();
                     g.streams.keys().cloned().find(|i| !known.contains(i) && i & 3 == 0)
@@ -636,7 +711,17 @@ async fn tx_cli(w: Shared, own: u64, p: Vec<u8>, ops: Vec<String>, cancel: Rc<Ce
                         if let Some(o) = cur.take() {
                             old.push(o);
                         }
-                        cur = Some(s);
+                        if let Some((_, o)) = cur_send.take() {
+                            std::mem::forget(o);
+                        }
+                        if split {
+                            let id = s.id().into_inner();
+                            let (send, recv) = s.split();
+                            std::mem::forget(recv);
+                            cur_send = Some((id, send));
+                        } else {
+                            cur = Some(s);
+                        }
                         out.push(format!("H:ok:{}", written));
                     }
                     Some(Err(e)) => out.push(format!("H:err:{}:{}", stream_err(&e), written)),
@@ -645,6 +730,16 @@ async fn tx_cli(w: Shared, own: u64, p: Vec<u8>, ops: Vec<String>, cancel: Rc<Ce
             }
             "T" => {
                 let k: u64 = op[1..].parse().unwrap();
+                if let Some((id, s)) = cur_send.as_mut() {
+                    let id = *id;
+                    let before = tx_len(&w, id);
+                    match cancellable(s.send_trailers(trailers_map(k)), &cancel).await {
+                        Some(Ok(())) => out.push(format!("T:ok:{}", tx_since(&w, id, before))),
+                        Some(Err(e)) => out.push(format!("T:err:{}:{}", stream_err(&e), tx_since(&w, id, before))),
+                        None => out.push("T:hang".into()),
+                    }
+                    continue;
+                }
                 match cur.as_mut() {
                     None => out.push("T:nostream".into()),
                     Some(s) => {
@@ -662,13 +757,15 @@ async fn tx_cli(w: Shared, own: u64, p: Vec<u8>, ops: Vec<String>, cancel: Rc<Ce
         }
     }
     std::mem::forget(cur);
+    std::mem::forget(cur_send);
+    std::mem::forget(via);
     std::mem::forget(old);
     std::mem::forget(conn);
     std::mem::forget(sr);
     out.join(" ")
 }
 
-async fn txw_cli(w: Shared, own: u64, p: Vec<u8>, k: u64, cancel: Rc<Cell<bool>>) -> String {
+async fn txw_cli(w: Shared, var: String, own: u64, p: Vec<u8>, k: u64, cancel: Rc<Cell<bool>>) -> String {
     let mut b = h3::client::builder();
     b.send_grease(false).max_field_section_size(own);
     let (mut conn, mut sr): (h3::client::Connection<SimConn, Bytes>, h3::client::SendRequest<SimOpener, Bytes>) =
@@ -681,7 +778,8 @@ async fn txw_cli(w: Shared, own: u64, p: Vec<u8>, k: u64, cancel: Rc<Cell<bool>>
         rb = rb.header("x", v);
     }
     let known: Vec<u64> = w.lock().unwrap().streams.keys().cloned().collect();
-    let mut fut = Box::pin(sr.send_request(rb.body(()).unwrap()));
+    let mut sender = if var.contains("clone0") { sr.clone() } else { sr };
+    let mut fut = Box::pin(sender.send_request(rb.body(()).unwrap()));
     // 1. start the call: no stream credit, it must park
     let first = poll_fn(|cx| match fut.as_mut().poll(cx) {
         Poll::Ready(x) => Poll::Ready(Some(x)),
@@ -720,7 +818,6 @@ async fn txw_cli(w: Shared, own: u64, p: Vec<u8>, k: u64, cancel: Rc<Cell<bool>>
         None => "W:hang".into(),
     };
     std::mem::forget(conn);
-    std::mem::forget(sr);
     out
 }
 
@@ -913,10 +1010,11 @@ fn main() {
             let own: u64 = own.parse().unwrap();
             let p: Vec<u8> = parse_peer(p).expect("driver: lim.tx needs a SETTINGS description");
             let ops: Vec<String> = ops.split(',').map(|s| s.to_string()).collect();
-            let (res, _w) = if *role == "srv" {
-                drive(move |w, c| tx_srv(w, own, p, ops, c), Side::Server)
+            let var = role.to_string();
+            let (res, _w) = if role.starts_with("srv") {
+                drive(move |w, c| tx_srv(w, var, own, p, ops, c), Side::Server)
             } else {
-                drive(move |w, c| tx_cli(w, own, p, ops, c), Side::Client)
+                drive(move |w, c| tx_cli(w, var, own, p, ops, c), Side::Client)
             };
             format!("ok {}", res)
         }
@@ -926,11 +1024,12 @@ fn main() {
             let (res, _w) = drive(move |w, c| site_enc(w, site, fields, c), side);
             res
         }
-        ["lim.txw", "cli", own, p, k] => {
+        ["lim.txw", role, own, p, k] if role.starts_with("cli") => {
+            let var = role.to_string();
             let own: u64 = own.parse().unwrap();
             let p: Vec<u8> = parse_peer(p).expect("driver: lim.txw needs a SETTINGS description");
             let k: u64 = k.parse().unwrap();
-            let (res, _w) = drive_with(move |w, c| txw_cli(w, own, p, k, c), Side::Client, 0);
+            let (res, _w) = drive_with(move |w, c| txw_cli(w, var, own, p, k, c), Side::Client, 0);
             format!("ok {}", res)
         }
         _ => "driver-error unknown-case".into(),
